@@ -398,6 +398,16 @@ def _run_cfg(unit, rng, ctx, loader, d):
     # (7) argument sets that change the parse result must not share a default cache file
     cfg.clear_caches()
     base_res, _ = quiet(cfg.call)
+    # other cache-like files next to the sources (an explicit cache named <source stem>.cache written by a load with
+    # the ORIGINAL arguments, a stale temporary file): a default-cache load with other arguments must not use them
+    import pathlib
+
+    decoy = str(pathlib.Path(cfg.src[0]).with_suffix('.cache'))
+    if (unit['i'] // 3) % 2 == 0:
+        quiet(lambda: cfg.call(cache=decoy))
+        with open(decoy + '.tmp', 'wb') as fh:
+            fh.write(b'stale temporary file')
+        ctx.count('configs_with_foreign_cache_like_files_next_to_the_sources')
     for var in cfg.variants:
         def attempt(fn):
             try:
